@@ -216,9 +216,11 @@ def run_shard(shard, ctx):
             if not g.ok:
                 continue
             tag = ("c16p", Dx)
-            Sx = objs.spd_batch(Dx, Rx, vi + 1, seed, tag)
+            # for the seed-generic value index the prior is a DIAGONAL-class density (its shortcuts must not leak into the result)
+            pxk = "GaussianDiagPDF" if (vi == 100 and Rx == 2) else "GaussianPDF"
+            Sx = objs.spd_batch(Dx, Rx, vi + 1, seed, tag, diag=(pxk == "GaussianDiagPDF"))
             mx = objs.vec_batch(Dx, Rx, vi + 1, seed, tag) * 0.5
-            p_x = objs.mk_pdf("GaussianPDF", Sx, mx)
+            p_x = objs.mk_pdf(pxk, Sx, mx)
             # ---- read-out of the conditional mean ------------------------------------
             X = np.concatenate([al.points(3, Dx, salt=vi), par["cen"] if kind == "LRBF" else np.zeros((0, Dx))], axis=0)
             if kind == "LSEM":
